@@ -564,10 +564,7 @@ def run(chk):
     sc, model, fp, rp = _load()
     from symex import loader
 
-    chk.functions = loader.describe([fp.fit_peaks, fp._fit_peak, fp._fit_peak_single_model, fp._guess_background, fp._guess_peak, fp._goodness_of_fit_statistics,
-                                     fp._chi_square, fp._akaike_information_criterion, fp._assess_fit, fp._peak_is_near_edge, fp._peak_is_too_wide, fp._peak_is_too_narrow,
-                                     fp._fit_windows, fp._clip_to_data_range, fp._separate_from_neighbors_in_place, fp._parse_model_spec, rp.remove_peaks,
-                                     fp.FitResult.for_failure, fp.FitResult.eval_peak])
+    chk.functions = loader.describe_exprs(['fp.fit_peaks', 'fp._fit_peak', 'fp._fit_peak_single_model', 'fp._guess_background', 'fp._guess_peak', 'fp._goodness_of_fit_statistics', 'fp._chi_square', 'fp._akaike_information_criterion', 'fp._assess_fit', 'fp._peak_is_near_edge', 'fp._peak_is_too_wide', 'fp._peak_is_too_narrow', 'fp._fit_windows', 'fp._clip_to_data_range', 'fp._separate_from_neighbors_in_place', 'fp._parse_model_spec', 'rp.remove_peaks', 'fp.FitResult.for_failure', 'fp.FitResult.eval_peak'], {**globals(), **locals()})
     ms = list(range(0, 9)) if chk.tier == 'quick' else list(range(0, 13))
     run_jobs(chk, job_length, [(m, 'gaussian', 'linear') for m in ms] + [(m, 'pseudo_voigt', 'quadratic') for m in ms[::2]])
     run_jobs(chk, job_stats, [(3, 2), (4, 2), (2, 2), (4, 5)])
